@@ -163,7 +163,7 @@ def path_start(s, end):
             if k < 0:
                 die("unbalanced receiver")
             j = k
-        elif c in " \n\t" and s[j:end].lstrip().startswith("."):
+        elif c in " \n\t" and s[j:end + 1].lstrip().startswith("."):
             # method chains are written `x\n    .iter()`
             k = j
             while k > 0 and s[k - 1] in " \n\t":
